@@ -2,31 +2,41 @@
 // returns a time that starts at a value derived from the run's seed and advances by one millisecond
 // per reading. pdfcpu stamps documents with the current time and derives file identifiers from it;
 // with the clock behind the seam the bytes it writes are a function of (code, input, seed).
+//
+// The counters are plain variables touched only inside //go:norace functions: every simulated run
+// has exactly one goroutine running at a time (the cooperative scheduler guarantees it for C40), and
+// an atomic counter would be a synchronisation point that the race detector sees - pdfcpu reads the
+// clock at the start and end of every API call, which would order all of task A's work before all of
+// task B's and hide every race between them.
 package simclock
 
-import (
-	"sync/atomic"
-	"time"
-)
+import "time"
 
 var (
 	base  int64
-	ticks atomic.Int64
-	total atomic.Int64 // readings over all runs of the process (1 ms of simulated time each)
+	ticks int64
+	total int64 // readings over all runs of the process (1 ms of simulated time each)
 )
 
-// TotalSeconds is the simulated time covered by all runs of this process so far.
-func TotalSeconds() float64 { return float64(total.Load()+ticks.Load()) / 1000 }
-
+//go:norace
 func now() (int64, int64) {
-	n := ticks.Add(1)
+	ticks++
+	n := ticks
 	return base + n/1000, (n % 1000) * 1000000
 }
 
+// TotalSeconds is the simulated time covered by all runs of this process so far.
+//
+//go:norace
+func TotalSeconds() float64 { return float64(total+ticks) / 1000 }
+
 // Install starts simulated time for one run.
+//
+//go:norace
 func Install(seed uint64) {
 	base = 1767225600 + int64(seed%(365*86400)) // some second of 2026
-	total.Add(ticks.Swap(0))
+	total += ticks
+	ticks = 0
 	time.VerifNow = now
 }
 
